@@ -328,3 +328,123 @@ def _is_matcher_construction(v: ast.expr, repo: Repo | None = None, T=None, view
     if isinstance(f, ast.Name) and f.id.endswith("Matcher"):
         return True
     return False
+
+
+# --------------------------------------------------------------------------- R2: the conversion map knows subjects *and* objects; only the layer detector judges
+
+
+def check_conversion_map_complete(repo: Repo, res: Result) -> None:
+    """The regex -> modules map handed to the detector factory contains the conversions of both sides of the rule (every regex
+    conversion made for this evaluation flows into it on every path), and the factory builds nothing but the layer detector."""
+    from core.guards import conds_formula, f_not
+
+    from .c05_views import value_cases
+
+    T = types_of(repo)
+    lm = repo.cls(MATCHER, "LayerRuleMatcher")
+    det = repo.cls(LAYER_DETECTOR, "LayerRuleViolationDetector")
+    conv = repo.classes.get(f"{CONVERTER}.ModuleNameConverter")
+    match = repo.lookup_method(lm, "match")
+    if match is None or conv is None:
+        return
+    vm = dview(repo, match, lm, family(repo, lm), tag="lm")
+    nodes = list(all_nodes(vm))
+    construct = f"{match.relpath}::RuleMatcher.match::conversion map of both sides reaches the layer matcher"
+    # ---- every detector built on behalf of a layer rule is the layer detector
+    base_det = repo.classes.get("pytestarch.rule_assessment.rule_check.rule_violation_detector.RuleViolationBaseDetector")
+    others = []
+    for n in nodes:
+        if isinstance(n, ast.Call):
+            src = getattr(n, "_src", None)
+            ctx, orig = src if src is not None else (vm, n)
+            try:
+                ci = T.ctor_class(ctx, orig)
+            except Exception:  # noqa: BLE001
+                ci = None
+            if ci is not None and base_det is not None and repo.is_subclass(ci, base_det.fq) and not repo.is_subclass(ci, det.fq):
+                others.append((n, ci))
+    for n, ci in others:
+        res.add("C05.R2", key_of(repo, vm, n, " [detector]"), False, f"the layer matcher builds a `{ci.name}` here: on this path the rule is judged per module, without the same-layer filter and the one-unit-per-layer leniency", where_of(vm, n), kind="structural")
+    # ---- the maps produced by the regex conversion
+    maps: list[str] = []
+    for n in nodes:
+        if isinstance(n, ast.Assign) and isinstance(n.value, ast.Call):
+            src = getattr(n.value, "_src", None)
+            ctx, orig = src if src is not None else (vm, n.value)
+            try:
+                cs, _how = T.callees(ctx, orig, byname_fallback=False)
+            except Exception:  # noqa: BLE001
+                cs = []
+            if any(c.cls is not None and c.cls.fq == conv.fq and not c.name.startswith("_") for c in cs):
+                t = n.targets[0]
+                if isinstance(t, ast.Tuple) and len(t.elts) == 2:
+                    maps.append(norm(t.elts[1]))
+                else:
+                    maps.append(norm(t) + "[1]")
+    # ---- the variable that holds the factory's map parameter in the view
+    factory = None
+    for c in repo.mro(lm):
+        for m in c.methods.values():
+            if not m.is_abstract and _ctor_calls(repo, T, m, det.fq):
+                factory = factory or m
+    if factory is None or len(factory.param_names) < 2 or not maps:
+        return  # reported by check_layer_mapping_update / nothing to relate
+    # a view of match() in which the factory stays a call: its argument is the map
+    fam = family(repo, lm)
+    vm = dview(repo, match, lm, lambda a, b: fam(a, b) and b.fq != factory.fq, tag="lm-factory-kept")
+    calls = [n for n in all_nodes(vm) if isinstance(n, ast.Call) and isinstance(n.func, ast.Attribute) and n.func.attr == factory.name and (n.args or n.keywords)]
+    if len(calls) != 1:
+        res.undecide("C05.R2", construct, f"{len(calls)} calls of the detector factory in the inlined view of match (expected one)", where(match, match.node))
+        return
+    var_expr = calls[0].args[0] if calls[0].args else calls[0].keywords[0].value
+
+    # other names of the same maps (`self._conversion_mapping_importers = importer_mapping`)
+    aliases: dict[str, set[str]] = {m_: {m_} for m_ in maps}
+    for _ in range(3):
+        for n in all_nodes(vm):
+            if isinstance(n, ast.Assign) and len(n.targets) == 1 and isinstance(n.targets[0], (ast.Name, ast.Attribute)):
+                vt = norm(n.value)
+                for m_, al in aliases.items():
+                    if vt in al:
+                        al.add(norm(n.targets[0]))
+
+    def mentioned(e: ast.AST, depth: int = 0, seen: frozenset = frozenset()) -> set[str]:
+        out: set[str] = set()
+        for x in ast.walk(e):
+            if isinstance(x, (ast.Attribute, ast.Name)) and isinstance(getattr(x, "ctx", None), ast.Load):
+                t = norm(x)
+                for m_ in maps:
+                    if t in aliases[m_] or (m_.endswith("[1]") and t == m_[:-3]):
+                        out.add(m_)
+                if isinstance(x, ast.Name) and depth < 4 and x.id not in seen and x.id not in vm.param_names:
+                    for p_ in productions(vm, x):
+                        for part in (p_.elt, p_.key, p_.merged, *[it for _t, it in p_.loops]):
+                            if part is not None and part is not x:
+                                out |= mentioned(part, depth + 1, seen | {x.id})
+        return out
+
+    bad = None
+    cases_: list = []
+    if isinstance(var_expr, ast.Name) and var_expr.id not in vm.param_names:
+        asg = assignments_of(vm, var_expr.id)
+        if asg:
+            from .common import conds as _conds
+
+            cases_ = [(_conds(vm, st), v) for st, v in asg]
+    if not cases_:
+        cases_ = value_cases(vm, var_expr)
+    for cs_, expr in cases_:
+        got = mentioned(expr)
+        missing = [m_ for m_ in maps if m_ not in got]
+        if not missing:
+            continue
+        # a map that leaves some conversion out is only right when that conversion is empty
+        f = conds_formula(cs_)
+        if all(any(implies(f, f_not(atom(f"bool({a})"))) for a in aliases[m_]) for m_ in missing):
+            continue
+        bad = (expr, missing)
+        break
+    if bad is None:
+        res.add("C05.R2", construct, True, f"the conversion map handed to the layer matcher is built from {len(maps)} regex conversion(s) on every path", where(match, match.node), kind="flow")
+    else:
+        res.add("C05.R2", construct, False, f"on some path the map handed to the layer matcher is `{norm(bad[0], 50)}`, which leaves out the regex conversion `{', '.join(bad[1])}`: regex layers on that side of the rule resolve to no modules", where(match, match.node), kind="flow")
